@@ -38,3 +38,18 @@ def chunks(iterable, size):
             buf = []
     if buf:
         yield buf
+
+
+TIME_ZONES = ('PST8PDT', 'XNP-5:45')        # POSIX TZ strings: west of Greenwich with daylight saving; east with a 45-minute offset
+
+
+def with_time_zones(cases, every, zones=TIME_ZONES):
+    """All cases (under the harness default UTC0), then every `every`-th case of the same enumeration again under each other
+    process time zone (the engine sets TZ for a case that carries 'tz'). The strided subset meets every block of the enumeration."""
+    base = []
+    for c in cases:
+        base.append(c)
+        yield c
+    for k, tz in enumerate(zones):
+        for c in base[k % every::every]:
+            yield dict(c, tz=tz)
